@@ -1,7 +1,7 @@
 (** C12 - Collection built-ins obey the invariants and equations the manual states. (first stage)
     Model: Val/Val.v [sort_by] (stable insertion sort = the contract of Rust's stable sorts), Std/Natives.v. *)
-From Coq Require Import List Sorting.Permutation.
-From JaqV Require Import Val.Val.
+From Coq Require Import List ZArith Sorting.Permutation Sorting.Sorted.
+From JaqV Require Import Val.Num Val.Val Proofs.SortLaws.
 Import ListNotations.
 
 Lemma insert_by_perm {A} (c : A -> A -> comparison) a l : Permutation (a :: l) (insert_by c a l).
@@ -23,3 +23,23 @@ Print Assumptions sort_is_permutation.
 Theorem sort_length : forall A (c : A -> A -> comparison) l, length (sort_by c l) = length l.
 Proof. intros. symmetry. apply Permutation_length. apply sort_is_permutation. Qed.
 Print Assumptions sort_length.
+
+(** for every comparison that is a total preorder the result is sorted ... *)
+Theorem sort_sorted : forall A (c : A -> A -> comparison), SortLaws.total_preorder A c ->
+  forall l, Sorted.StronglySorted (SortLaws.le A c) (sort_by c l).
+Proof. exact SortLaws.sort_sorted. Qed.
+Print Assumptions sort_sorted.
+
+(** ... and stable: the elements of one equivalence class come out in the order they came in *)
+Theorem sort_stable : forall A (c : A -> A -> comparison), SortLaws.total_preorder A c ->
+  (forall a b, c a b = Eq -> forall z, c z a = c z b) -> (forall a b, c a b = Eq -> c b a = Eq) ->
+  forall x l, filter (SortLaws.same A c x) (sort_by c l) = filter (SortLaws.same A c x) l.
+Proof. exact SortLaws.sort_stable. Qed.
+Print Assumptions sort_stable.
+
+(** [sort] on an array of integers of any size is the numeric sort *)
+Theorem sort_integer_array : forall l,
+  sort_by val_cmp (map vint l) = map vint (sort_by Z.compare l)
+  /\ Sorted.StronglySorted (fun a b => (a <= b)%Z) (sort_by Z.compare l).
+Proof. exact SortLaws.sort_integer_array. Qed.
+Print Assumptions sort_integer_array.
